@@ -141,6 +141,38 @@ func emitGuess(id string, content []byte, l *layout, expect string) {
 		gp = "-"
 	}
 	emit("guess", id, hexs(content), hexs([]byte(l.localGoroot)), gp, fmtFS(l.files), expect, snap, goroot, gopaths, gomods, det)
+	// the disk changes between two scans of one process (a go.mod is edited): the second scan must see the new content
+	if !strings.HasSuffix(id, "-edited") {
+		var mods []string
+		for p := range l.files {
+			if strings.HasSuffix(p, "/go.mod") && strings.Contains(l.files[p], "module") {
+				mods = append(mods, p)
+			}
+		}
+		sort.Strings(mods)
+		if len(mods) > 0 {
+			p := mods[0]
+			l.files[p] = strings.Replace(l.files[p], "module example.com/", "module example.org/renamed/", 1)
+			if err := os.WriteFile(p, []byte(l.files[p]), 0o644); err == nil {
+				// nothing is predicted from the layout here: only model = implementation on the disk as it is NOW
+				q := func(s string) string {
+					parts := strings.Split(s, ",")
+					for i := range parts {
+						if parts[i] != "-" {
+							parts[i] = "?"
+						}
+					}
+					return strings.Join(parts, ",")
+				}
+				e2 := expect
+				if ab := strings.SplitN(expect, ";", 2); len(ab) == 2 {
+					e2 = q(ab[0]) + ";" + q(ab[1])
+				}
+				s2, g2, p2, m2 := runGuess(content, l)
+				emit("guess", id+"-edited", hexs(content), hexs([]byte(l.localGoroot)), gp, fmtFS(l.files), e2, s2, g2, p2, m2, "1")
+			}
+		}
+	}
 }
 
 func init() {
